@@ -250,6 +250,14 @@ def execute(case, pollution):
         return out
     out["hof"] = hof_view(s.hof)
     out["snaps"] = snaps
+    # the solver's own per-generation report (logs["hof"]: one row per generation, cost_min = best score so far)
+    try:
+        tab = s.logs.get("hof") if isinstance(s.logs, dict) else None
+        rows = tab.to_dict("records") if hasattr(tab, "to_dict") else list(tab or [])
+        out["log_best"] = [[int(r.get("iteration", -1)), (None if r.get("cost_min") is None or not np.isfinite(r.get("cost_min")) else float(r.get("cost_min")))] for r in rows]
+    except Exception as e:
+        out["log_best"] = None
+        out["log_best_exc"] = repr(e)[:200]
     out["digest"] = hashlib.sha256(core.canon(out["hof"]).encode()).hexdigest()[:16]
     out["draw_digest"] = hashlib.sha256(core.canon([[d[0], d[1], d[2]] for d in seam.draws]).encode()).hexdigest()[:16]
     out["draws"] = len(seam.draws)
@@ -362,6 +370,19 @@ def judge_single(ctx, case, e, tag):
         elif prev_best is not None:
             ctx.violate("H4_best_got_worse", gi, f"{tag}: hall of fame emptied at generation {gi}", sig)
             return False
+    lb = e.get("log_best")
+    if lb is not None:
+        # the report the solver itself gives of "best score per generation" must be that of this run: one row per
+        # generation, numbered 0.., each showing the best score the hall of fame had at that generation
+        bests = [next((v[0] for v in view if v[0] is not None), None) for view in e["snaps"]]
+        if len(lb) != len(bests) or [r[0] for r in lb] != list(range(len(bests))):
+            ctx.violate("H4_reported_generations", -1, f"{tag}: logs['hof'] has rows for iterations {[r[0] for r in lb][:12]} ({len(lb)} rows), the run had {len(bests)} generations", sig)
+            return False
+        for gi, (r, b) in enumerate(zip(lb, bests)):
+            if not close(r[1], b):
+                ctx.violate("H4_reported_best", gi, f"{tag}: logs['hof'].cost_min at generation {gi} is {r[1]}, the hall of fame's best was {b}", sig)
+                return False
+        ctx.probe("generation_report_checked")
     if any(v[1] is None for v in e["hof"]):
         ctx.probe("hof_unfilled_slots")
     for (sc, qasm), again in zip(e["hof"], e["h2"]):
